@@ -63,6 +63,10 @@ def render_line(l, stmts, seed, first_table):
     if st == "dash":
         return ind + "-- " + t
     if st == "hash":
+        if (seed + cm["cid"]) % 3 == 0:
+            return ind + "#" + t.split()[0]          # a single word glued to the marker (#TODO)
+        if (seed + cm["cid"]) % 3 == 1:
+            return ind + "#" + t                      # no space after the marker
         return ind + "# " + t
     if st == "blk1":
         return ind + "/* " + t + " */"
@@ -145,6 +149,8 @@ def source_comments(beh, seed):
         if cm["style"] == "none" or (cm["style"] == "close" and cm["cid"] == 0):
             continue
         t = cm_text(cm["cid"], cm["dash"], seed)
+        if cm["style"] == "hash" and (seed + cm["cid"]) % 3 == 0:
+            t = t.split()[0]
         if cm["style"] == "mid":
             t += " more"
         if cm["style"] == "close":
